@@ -534,6 +534,16 @@ def r15_iter(text, base_line=0):
         text = text[:m.start()] + new + text[m.end():]
 
 
+def r16_map_index(text, base_line=0):
+    """R16: `M[&k]` on a HashMap -> `(*M.get(&k).unwrap())` (std defines `Index for HashMap` as `get(k).expect(..)`; vstd specifies
+    `get` but not the Index impl)."""
+    log = []
+    pat = re.compile(r"((?:self\.)?\w+)\[&(\w+)\]")
+    for m in pat.finditer(text):
+        log.append("R16 line %d: `%s` -> `(*%s.get(&%s).unwrap())`" % (base_line + text.count("\n", 0, m.start()), m.group(0), m.group(1), m.group(2)))
+    return pat.sub(lambda m: "(*%s.get(&%s).unwrap())" % (m.group(1), m.group(2)), text), log
+
+
 def r11_deref_ref_operand(text, base_line=0):
     """R11: explicit copies for `&f32` closure parameters are NOT inserted here; kept as placeholder"""
     return text, []
@@ -542,9 +552,9 @@ def r11_deref_ref_operand(text, base_line=0):
 REWRITES = {
     "R1": r1_compound_assign, "R2": r2_unary_minus, "R3": r3_scale_call, "R6": r6_for_with_continue,
     "R7": r7_isqrt, "R8": r8_step_by, "R9": r9_consts, "R10": r10_tail_continue,
-    "R12": r12_enumerate, "R15": r15_iter, "R13": r13_panic_allowed, "R14": r14_panic_forbidden,
+    "R12": r12_enumerate, "R15": r15_iter, "R16": r16_map_index, "R13": r13_panic_allowed, "R14": r14_panic_forbidden,
 }
-ORDER = ["R13", "R14", "R12", "R15", "R10", "R8", "R6", "R9", "R7", "R3", "R1", "R2"]
+ORDER = ["R13", "R14", "R16", "R12", "R15", "R10", "R8", "R6", "R9", "R7", "R3", "R1", "R2"]
 
 
 def apply_rewrites(text, names, base_line):
